@@ -39,6 +39,7 @@ import (
 	"net"
 	"os"
 	"path/filepath"
+	"runtime"
 	"strconv"
 	"strings"
 	"sync"
@@ -409,26 +410,25 @@ func verifRawSocketCase(dir string, caseNo int, line string) (string, string) {
 	// fault-free stretches; on tcp/udp a write that succeeds into a dead connection gives no
 	// signal, so there the wait is bounded by a quiet period.
 	const giveUpLine = "message failed after the configured retry limit"
-	caseDeadline := time.Now().Add(20 * time.Second)
+	caseDeadline := time.Now().Add(30 * time.Second)
 	awaitProcessed := func(got0, gu0, size int) {
+		// 1. the producer is back at `<-mCh`: the message has been delivered, lost or given up and
+		//    everything it logs about it has been logged (exact: read off the goroutine's state)
+		for !verifInputMsgIdle() && time.Now().Before(caseDeadline) {
+			time.Sleep(20 * time.Microsecond)
+		}
+		// 2. what it wrote has been read by the sink: exact on unix sockets (a write that returned nil
+		//    is in the peer's queue), best effort otherwise (a write into a dead tcp connection or to
+		//    a closed udp port returns nil and nothing ever arrives)
 		deadline := time.Now().Add(2 * time.Second)
 		if proto != "unix" {
-			deadline = time.Now().Add(40 * time.Millisecond)
+			deadline = time.Now().Add(3 * time.Millisecond)
 		}
-		last, lastChange := got0, time.Now()
 		for time.Now().Before(deadline) && time.Now().Before(caseDeadline) {
-			got := sink.received()
-			if (got >= got0+size || lbuf.count(giveUpLine) > gu0) && sink.acceptedAll(lbuf) {
+			if (sink.received() >= got0+size || lbuf.count(giveUpLine) > gu0) && sink.acceptedAll(lbuf) {
 				return
 			}
-			if got != last {
-				last, lastChange = got, time.Now()
-			}
-			// octets arrived but not the expected number and nothing more comes: the oracle will tell
-			if got > got0 && time.Since(lastChange) > 25*time.Millisecond {
-				return
-			}
-			time.Sleep(50 * time.Microsecond)
+			time.Sleep(20 * time.Microsecond)
 		}
 	}
 	experienced := f[0] == "producerx"
@@ -652,6 +652,23 @@ func verifRawSocketCase(dir string, caseNo int, line string) (string, string) {
 		return "nd", "ok"
 	}
 	return impl, "ok"
+}
+
+// verifInputMsgIdle reports whether the goroutine running RawSocket.inputMsg is blocked receiving
+// from its channel, i.e. it has finished with every message handed over so far
+func verifInputMsgIdle() bool {
+	buf := make([]byte, 1<<18)
+	buf = buf[:runtime.Stack(buf, true)]
+	for _, blk := range strings.Split(string(buf), "\n\n") {
+		if strings.Contains(blk, "(*RawSocket).inputMsg") {
+			head := blk
+			if i := strings.IndexByte(blk, '\n'); i >= 0 {
+				head = blk[:i]
+			}
+			return strings.Contains(head, "[chan receive")
+		}
+	}
+	return false
 }
 
 func settleQuiet(s *verifSink, quiet time.Duration) {
